@@ -131,7 +131,9 @@ def from_term(t, opaque, defs=None, depth=0):
 
 
 def reduce(p, rules, limit=400):
-    """rewrite with rules {var: (power, polynomial)}: var^power -> polynomial"""
+    """rewrite with rules {var: (power, polynomial)}: var^power -> polynomial, and product
+    rules {(v1, v2): polynomial}: v1*v2 -> polynomial"""
+    prules = {k: r for k, r in rules.items() if isinstance(k, tuple)}
     for _ in range(limit):
         changed = False
         out = {}
@@ -142,6 +144,24 @@ def reduce(p, rules, limit=400):
                 if r is not None and e >= r[0]:
                     hit = (i, v, e, r)
                     break
+            if hit is None and prules:
+                names = dict(m)
+                for (v1, v2), rp in prules.items():
+                    if v1 in names and v2 in names:
+                        rest = tuple((v, e - 1) if v in (v1, v2) else (v, e) for v, e in m)
+                        rest = tuple((v, e) for v, e in rest if e)
+                        changed = True
+                        for m2, c2 in rp.items():
+                            mm = _mmul(rest, m2)
+                            val = out.get(mm, 0) + c * c2
+                            if val:
+                                out[mm] = val
+                            else:
+                                out.pop(mm, None)
+                        hit = "done"
+                        break
+                if hit == "done":
+                    continue
             if hit is None:
                 out[m] = out.get(m, 0) + c
                 if not out[m]:
@@ -165,20 +185,45 @@ def reduce(p, rules, limit=400):
     raise TooBig()
 
 
+def build_rules(rules_terms, opaque):
+    rules = {}
+    for v, pw, rt in rules_terms:
+        if isinstance(v, tuple):
+            rules[(v[0].decl().name(), v[1].decl().name())] = from_term(rt, opaque)
+        else:
+            rules[v.decl().name()] = (pw, from_term(rt, opaque))
+    # relations may mention each other (a witness whose radicand contains pairs): normalise them first
+    for _ in range(3):
+        for name in list(rules):
+            others = {k: r for k, r in rules.items() if k != name}
+            if isinstance(name, tuple):
+                rules[name] = reduce(rules[name], others)
+            else:
+                pw, rp = rules[name]
+                rules[name] = (pw, reduce(rp, others))
+    return rules
+
+
+def normal_form_key(t, rules_terms):
+    """a hashable normal form of t modulo the relations, or None"""
+    try:
+        opaque = {}
+        rules = build_rules(rules_terms, opaque)
+        p = reduce(from_term(t, opaque), rules)
+        if any(k.startswith("opq#") for m in p for k, _ in m):
+            return None
+        return tuple(sorted((m, c.numerator, c.denominator) for m, c in p.items()))
+    except (TooBig, RecursionError):
+        return None
+
+
 def equal(ta, tb, rules_terms):
     """True when ta - tb normalises to 0 under the relations; rules_terms: list of
     (z3 var, power, z3 term)"""
     try:
         opaque = {}
         rules = {}
-        for v, pw, rt in rules_terms:
-            rules[v.decl().name()] = (pw, from_term(rt, opaque))
-        # relations may mention each other (a witness whose radicand contains pairs): normalise them first
-        for _ in range(3):
-            for name in list(rules):
-                pw, rp = rules[name]
-                others = {k: r for k, r in rules.items() if k != name}
-                rules[name] = (pw, reduce(rp, others))
+        rules = build_rules(rules_terms, opaque)
         d = add(from_term(ta, opaque), from_term(tb, opaque), -1)
         d = reduce(d, rules)
         return not d
